@@ -817,8 +817,10 @@ def gen_manyparams_program(rng):
 def gen_sendtwice_program(rng):
     forms, obs = [], []
     for i in range(rng.randint(1, 3)):
-        k = rng.randint(1, 9)
-        body = rng.choice(["(+ x %d)", "(* x %d)", "(list x %d)", "(if (< x %d) (- x) x)"]) % k
+        # only the constants 0, 1, 2 (immediate op codes): serialising a procedure that refers to the constant
+        # table fails in every configuration
+        k = rng.randint(1, 2)
+        body = rng.choice(["(+ x %d)", "(* x %d)", "(list x %d)", "(if (< x %d) (- x) x)", "(list x x %d)", "(- x %d)"]) % k
         forms.append("(define (s%d x) %s)" % (i, body))
         times = rng.randint(2, 3)
         how = rng.choice(["serialize", "serialize", "thread", "mixed"])
@@ -837,3 +839,27 @@ def gen_sendtwice_program(rng):
     text = "\n".join(tl_forms) + "\n" + "\n".join(tl_obs)
     return {"pieces": [text],
             "module": "\n".join(forms) + "\n" + "\n".join("(displayln %s)" % o for o in obs) + "\n"}
+
+
+# ------------------------------------------------------------------------------------------------------
+# Module-level recursive procedures with dead branches under constant tests in operand position, wrappers,
+# and calls nested two or three deep (arguments that are themselves calls), also inside the handler lambda of
+# a with-handler after an error, with negative arguments (the family of finding K02n).
+
+def gen_nested_module_calls(rng):
+    lines = ["(define g1 %d)" % rng.choice([0, 1, -2])]
+    base = rng.choice(["(min 0 (if (< 1 2) 0 (error \"never\")))", "(max 0 (if (< 1 2) (if (< 1 2) 0 (car '())) 3))",
+                       "(min 0 (if (< 1 2) (if (< 1 2) 0 (car '())) (error \"never\")))", "(if (< 1 2) 0 (car '()))",
+                       "(+ 0 (if #false (car '()) 0))", "(abs (if (> 2 1) 0 (error \"never\")))"])
+    step = rng.choice(["(* (begin (display a) a) (- a c))", "(* a (- a c))", "(- a c)", "(+ b (* a c))", "(max a c)"])
+    lines.append("(define (r a b c) (if (<= a 0) %s (+ %s (r (- a 1) b c))))" % (base, step))
+    lines.append("(define (w x y) (r %d x y))" % rng.randint(1, 3))
+    obs = []
+    for _ in range(rng.randint(3, 6)):
+        v = lambda: str(rng.choice([0, 1, 2, -1, -3, 5]))
+        inner = rng.choice(["(w %s %s)" % (v(), v()), "(apply w (list g1 %s))" % v(), "(r 1 %s %s)" % (v(), v())])
+        mid = "(w %s %s)" % (v(), inner)
+        outer = rng.choice(["(w %s %s)" % (v(), mid), mid, "(list %s %s)" % (mid, inner)])
+        obs.append(rng.choice(["(with-handler (lambda (e) %s) (car '()))", "%s",
+                               "(with-handler (lambda (e) 'err) %s)"]) % outer)
+    return {"module": "\n".join(lines) + "\n" + "\n".join("(displayln %s)" % o for o in obs) + "\n"}
